@@ -629,6 +629,102 @@ func c15FamilyWorkload(g *hx.Gen) string {
 	return fmt.Sprintf("pt %d %d %s %s %s %s", minLen, minIDm, plants, strings.Join(ts, ";"), string(target), string(query))
 }
 
+// self comparison with an inverted repeat whose arms are mirror images about the sequence centre: copy at
+// [a,a+L), reverse-complemented copy at [b,b+L) with a+b+L = len + delta; for delta = 0 the pair lies on the
+// main diagonal of the complement comparison and is reported with identical A and B coordinates (which on that
+// strand does not mean "the same region"); delta = +-1, +-7 are the near-mirrored controls
+func c15MirrorWorkload(g *hx.Gen) string {
+	n := g.Range(2000, g.Scale(5000, 12000))
+	minLen := g.Pick(100, 120, 150, 200)
+	minIDm := g.Pick(750, 800, 850, 900, 940)
+	L := g.Range(minLen+30, 400)
+	delta := g.Pick(0, 0, 0, 0, 1, -1, 7, -7)
+	amax := (n + delta - 2*L - 50) / 2
+	a := g.Range(0, amax)
+	if g.Chance(0.1) {
+		a = 0
+	}
+	b := n + delta - a - L
+	target := g.Letters("acgt", n)
+	rep := g.Letters("acgt", L)
+	cp := append([]byte{}, rep...)
+	if g.Chance(0.5) {
+		allowed := int(float64(L) * (1 - float64(minIDm)/1000) / 3)
+		cp = c15Mutate(g, rep, g.Range(0, allowed), 0)
+	}
+	cp = c15RevComp(cp)
+	copy(target[a:], rep)
+	copy(target[b:], cp)
+	return fmt.Sprintf("pw 1 %d %d 64 %d:%d:%d:%d:1 %s -", minLen, minIDm, a, L, b, L, string(target))
+}
+
+// a repeat family: one segment with several exact copies, so that different pairs share one side and their
+// alignments end on exactly the same target coordinate.  Two sequences: one copy in the target, 2-3 in the
+// query (all on the same strand); self comparison: 3 forward copies, i.e. the pairs 1-2, 1-3, 2-3.
+// Recall is demanded for every pair.
+func c15CopiesWorkload(g *hx.Gen) string {
+	self := g.Chance(0.4)
+	minLen := g.Pick(100, 120, 150)
+	minIDm := g.Pick(800, 850, 900, 940)
+	L := g.Range(minLen+30, 300)
+	rep := g.Letters("acgt", L)
+	place := func(seq []byte, m int, s []byte) []int {
+		// m non-overlapping positions, at least 60 letters apart
+		for try := 0; try < 200; try++ {
+			var ps []int
+			ok := true
+			for i := 0; i < m && ok; i++ {
+				p := g.Intn(len(seq) - len(s))
+				for _, q := range ps {
+					if p < q+len(s)+60 && q < p+len(s)+60 {
+						ok = false
+					}
+				}
+				ps = append(ps, p)
+			}
+			if ok {
+				sort.Ints(ps)
+				for _, p := range ps {
+					copy(seq[p:], s)
+				}
+				return ps
+			}
+		}
+		return nil
+	}
+	var plants []string
+	if self {
+		target := g.Letters("acgt", g.Range(2500, g.Scale(5000, 12000)))
+		ps := place(target, 3, rep)
+		if ps == nil {
+			return ""
+		}
+		for i := 0; i < 3; i++ {
+			for j := i + 1; j < 3; j++ {
+				plants = append(plants, fmt.Sprintf("%d:%d:%d:%d:0", ps[i], L, ps[j], L))
+			}
+		}
+		return fmt.Sprintf("pw 1 %d %d 64 %s %s -", minLen, minIDm, strings.Join(plants, ";"), string(target))
+	}
+	target := g.Letters("acgt", g.Range(2000, g.Scale(5000, 12000)))
+	query := g.Letters("acgt", g.Range(2500, g.Scale(5000, 12000)))
+	tp := place(target, 1, rep)
+	comp := 0
+	cp := rep
+	if g.Chance(0.4) {
+		comp = 1
+		cp = c15RevComp(rep)
+	}
+	qs := place(query, g.Pick(2, 2, 3), cp)
+	if tp == nil || qs == nil {
+		return ""
+	}
+	for _, q := range qs {
+		plants = append(plants, fmt.Sprintf("%d:%d:%d:%d:%d", tp[0], L, q, L, comp))
+	}
+	return fmt.Sprintf("pw 0 %d %d 64 %s %s %s", minLen, minIDm, strings.Join(plants, ";"), string(target), string(query))
+}
+
 func c15GenOptimise(g *hx.Gen) {
 	n := g.Scale(3000, 100000)
 	for i := 0; i < n && !g.Done(); i++ {
@@ -659,6 +755,16 @@ func c15Gen(g *hx.Gen) {
 		if i%10 == 7 {
 			g.Case(c15FamilyWorkload(g))
 			continue
+		}
+		if i%10 == 2 {
+			g.Case(c15MirrorWorkload(g))
+			continue
+		}
+		if i%10 == 5 {
+			if w := c15CopiesWorkload(g); w != "" {
+				g.Case(w)
+				continue
+			}
 		}
 		if i%5 == 4 {
 			res := []int{29, 30, 31, 32, 33, 0, 28, 1}
